@@ -162,6 +162,11 @@ type NetCfg struct {
 	Wide          bool // one DAG in forty is wide and shallow: 100-300 hidden neurons between the sensors and the outputs
 	Dense         bool // one DAG in sixty is (almost) fully connected over 14-18 neurons: 10^4 - 10^5 simple paths
 	BigRecurrent  bool // one cyclic net in thirty is large and sparse (100-300 hidden neurons, many self loops)
+	// FlaggedLinks (DAG variant): one net in five carries links with the recurrence flag although it has no cycle - the flag is
+	// an attribute a gene received when a path back existed; that path may be gone (its gene disabled) while the flagged gene
+	// is still expressed. Some of them run parallel to an ordinary link on the same ordered pair.
+	FlaggedLinks bool
+	ManyIO       bool // one DAG in twelve has many sensors and outputs (up to 40 inputs, 6 bias nodes, 24 outputs)
 }
 
 func genNet(cfg NetCfg) *rapid.Generator[NetSpec] {
@@ -388,6 +393,9 @@ func drawNetPlain(t *rapid.T, cfg NetCfg) NetSpec {
 		maxHidden = 8
 	}
 	nHid := rapid.IntRange(cfg.MinHidden, maxHidden).Draw(t, "hidden")
+	if cfg.ManyIO && !cfg.Cyclic && rapid.IntRange(0, 11).Draw(t, "many sensors and outputs") == 5 {
+		nIn, nBias, nOut = rapid.IntRange(5, 40).Draw(t, "inputs (many)"), rapid.IntRange(0, 6).Draw(t, "bias (many)"), rapid.IntRange(4, 24).Draw(t, "outputs (many)")
+	}
 	id := 1
 	roles := []int{}
 	for i := 0; i < nIn; i++ {
@@ -466,6 +474,17 @@ func drawNetPlain(t *rapid.T, cfg NetCfg) NetSpec {
 	}
 	if len(s.Links) == 0 {
 		s.Links = append(s.Links, NetLink{From: s.Nodes[0].Id, To: order[0].Id, W: 1})
+	}
+	if cfg.FlaggedLinks && rapid.IntRange(0, 4).Draw(t, "flagged links") == 0 {
+		n := len(s.Links)
+		for i := 0; i < n; i++ {
+			switch rapid.IntRange(0, 5).Draw(t, "flag") {
+			case 0:
+				s.Links[i].Rec = true
+			case 1: // a flagged twin on the same ordered pair
+				s.Links = append(s.Links, NetLink{From: s.Links[i].From, To: s.Links[i].To, W: genNetWeight().Draw(t, "w"), Rec: true})
+			}
+		}
 	}
 	return s
 }
@@ -639,7 +658,7 @@ func (s NetSpec) evalFeedForward(inputs []float64, withBias bool) (evalResult, e
 			lip = 0
 		}
 		val[v] = out
-		bnd[v] = lip*eSum + 4*eps*math.Abs(out)
+		bnd[v] = lip*eSum + 4*eps*math.Max(math.Abs(out), 1) // the activation functions are evaluated with an absolute error of a few ulps of 1 (differences and quotients of exponentials near a zero output)
 	}
 	for _, id := range s.outputIds() {
 		res.out = append(res.out, val[id])
